@@ -27,3 +27,25 @@ package hls
 //@   assert-call muxer.handleRequest: (contentTyp == 1 && !isCDN) ==> called(session.initialize) == 1
 //@   assert-call muxer.handleRequest: (contentTyp == 1 && !isCDN) ==> resultof(session.initialize) == nil
 //@   assert-call session.initialize: s.pathName == dir && s.isCDN == cdn()
+
+// C20 (the HLS reader pair, field-managed): the read pair is opened exactly when the session initializes
+// successfully - never on a failure path - and its closer is stored; close2 calls that closer exactly once.
+
+//@ func (s *session) initialize
+//@   property C20
+//@   safety -all
+//@   assert-call OnRead: called(OnRead) == 1
+//@   loop 1 invariant called(OnRead) == 0 && called(serverPathManager.AddReader) == 1 && called(Path.RemoveReader) == 0 && resultof(serverPathManager.AddReader, 1) == nil
+//@   loop 2 invariant called(OnRead) == 0 && called(serverPathManager.AddReader) == 1 && called(Path.RemoveReader) == 0 && resultof(serverPathManager.AddReader, 1) == nil
+//@   ensures [read-pair-opened-iff-initialized] called(OnRead) == b2i(result == nil)
+//@   ensures [closer-stored] result == nil ==> s.onUnreadHook == resultof(OnRead)
+//@   assert-call serverPathManager.AddReader: called(serverPathManager.AddReader) == 1
+//@   assert-call Path.RemoveReader: called(serverPathManager.AddReader) == 1 && resultof(serverPathManager.AddReader, 1) == nil && called(Path.RemoveReader) == 1 && called(OnRead) == 0
+//@   ensures [reader-detached-again-on-every-later-failure] result != nil && called(serverPathManager.AddReader) == 1 && resultof(serverPathManager.AddReader, 1) == nil ==> called(Path.RemoveReader) == 1
+//@   ensures [reader-kept-on-success] result == nil ==> called(serverPathManager.AddReader) == 1 && called(Path.RemoveReader) == 0
+
+//@ func (s *session) close2
+//@   property C20
+//@   safety -all
+//@   assert-call onUnreadHook: called(onUnreadHook) == 1
+//@   ensures [read-pair-closed-once] called(onUnreadHook) == 1
